@@ -13,7 +13,8 @@ import PdfModel.Core.Out
   Lexer::is_whitespace / is_delimiter (pos)   `isWsAt` / `isDelimAt`
   Lexer::advance_pos                          `advancePos`
   Lexer::new_substr                           `newSubstr` (range swap + slice panic)
-  Lexer::next_word                            `nextWord` (comment loop = `skipComments`, regular run = `scanRegular`)
+  Lexer::next_word                            `nextWord` = `tokenStart` (white-space, comment loop `skipComments`)
+                                              then `lexemeAt` (regular run = `scanRegular`)
   Lexer::next / peek / back / next_expect     `next` / `peek` / `back` / `nextExpect`
   Lexer::next_stream                          `nextStream`
   Lexer::set_pos / offset_pos / read_n        `setPos` / `offsetPos` / `readN`
@@ -137,11 +138,12 @@ def isDouble (buf : Buf) (pos : Nat) : Bool :=
   | some a, some c => (a == 60 && c == 60) || (a == 62 && c == 62)
   | _, _ => false
 
-/-- `Lexer::next_word`: `(start, stop)` of the lexeme; the new position is `stop` -/
-def nextWord (buf : Buf) (pos : Nat) : Out (Nat × Nat) :=
-  if pos == buf.size then .err else
-  (skipWhitespace buf pos).bind fun p0 =>
-  (skipComments buf buf.size p0).bind fun start =>
+/-- first part of `next_word`: white-space and comments are skipped; the position where the lexeme starts -/
+def tokenStart (buf : Buf) (pos : Nat) : Out Nat :=
+  (skipWhitespace buf pos).bind fun p0 => skipComments buf buf.size p0
+
+/-- second part of `next_word`: the lexeme that starts at `start` -/
+def lexemeAt (buf : Buf) (start : Nat) : Out (Nat × Nat) :=
   if isDelimAt buf start then
     match buf[start]? with
     | none => .panic   -- `self.buf[pos]`
@@ -155,6 +157,11 @@ def nextWord (buf : Buf) (pos : Nat) : Out (Nat × Nat) :=
         newSubstr buf start p2
   else
     newSubstr buf start (scanRegular buf start)
+
+/-- `Lexer::next_word`: `(start, stop)` of the lexeme; the new position is `stop` -/
+def nextWord (buf : Buf) (pos : Nat) : Out (Nat × Nat) :=
+  if pos == buf.size then .err else
+  (tokenStart buf pos).bind fun start => lexemeAt buf start
 
 /-- `Lexer::next`: lexeme and new position -/
 def next (buf : Buf) (pos : Nat) : Out (Nat × Nat) := nextWord buf pos
